@@ -238,3 +238,20 @@ fn vk_c17_canary_uci_parse() {
     let s = any_ascii(&mut buf, 7);
     assert!(g::uci_move(s).is_err()); // must FAIL
 }
+
+//@ obligation: C14.go.parse_duration_total
+//@ property: C14 C13
+//@ domain: complete
+//@ functions: engine/uci/parser.rs::parse_duration
+//@ timeout: 300
+//@ note: every clock / increment / movetime value a `go` command can carry (any i64, negative values included -- GUIs send negative clocks when a side has overstepped): parse_duration never panics and yields max(n, 0) milliseconds
+//@ assumes: std::time::Duration::from_millis as compiled
+#[kani::proof]
+fn vk_c14_go_parse_duration_total() {
+    let n: i64 = kani::any();
+    let d = super::parse_duration(n);
+    kani::cover!(n < 0);
+    kani::cover!(n == i64::MAX);
+    let want: u64 = if n < 0 { 0 } else { n as u64 };
+    assert!(d == std::time::Duration::from_millis(want));
+}
